@@ -48,7 +48,7 @@ struct Gen {
     hist: Vec<Vec<u8>>,
 }
 
-const RELATION: [&str; 7] = ["same_again", "last_byte_changed", "first_byte_changed", "prefix", "extended", "same_length", "doubled"];
+const RELATION: [&str; 9] = ["same_again", "last_byte_changed", "first_byte_changed", "prefix", "extended", "same_length", "doubled", "behind_a_zstd_magic", "behind_an_lz4_magic"];
 
 impl Gen {
     fn new(n: u32) -> Gen {
@@ -82,10 +82,22 @@ impl Gen {
                     *b = splitmix(&mut x) as u8;
                 }
             }
-            _ => {
+            6 => {
                 if v.len() <= 2500 {
                     v.extend_from_slice(&src);
                 }
+            }
+            // a record that looks like the store's own container: already-compressed data is what
+            // users put into blob stores, and a store must not take a record for its own framing
+            7 => {
+                let mut w = vec![0x28, 0xB5, 0x2F, 0xFD];
+                w.extend_from_slice(&v);
+                v = w;
+            }
+            _ => {
+                let mut w = vec![0x04, 0x22, 0x4D, 0x18];
+                w.extend_from_slice(&v);
+                v = w;
             }
         }
         if !v.is_empty() && self.hist.len() < 12 {
